@@ -130,6 +130,30 @@ fn table_case(ctx: &mut Ctx, rng: &mut Rng, idx: usize) {
     let (name, _) = &table()[idx];
     let Some(pd) = load_pd(name) else { ctx.inconclusive("table_unreadable"); return };
     let multi = pd.components().len() >= 2;
+    // constructors / loader / simple accessors: Link::load(name) and Link::from_pd_code give the diagram the file
+    // holds; edges(), is_empty, crossing_num, ori_pres_state agree with the code
+    let (name2, pdx) = (name.clone(), pd.x.clone());
+    let r = guarded(move || {
+        let a = yui_link::Link::load(&name2).ok().map(|l| (lib_to_pd(&l), l.is_empty(), l.crossing_num()));
+        let b = yui_link::Link::from_pd_code(pdx.iter().cloned());
+        let mut es: Vec<usize> = b.edges().into_iter().collect(); es.sort();
+        let st: Vec<bool> = b.ori_pres_state().iter().map(|x| x == yui::bitseq::Bit::Bit1).collect();
+        let sg: Vec<bool> = b.crossing_signs().iter().map(|s| !s.is_positive()).collect();
+        (a, lib_to_pd(&b), es, st, sg, b.is_empty())
+    });
+    match r {
+        Ok((a, b, es, st, sg, empty)) => {
+            let wit = json!({"name": name, "pd": pd.x});
+            match a {
+                Some((la, e, cn)) => { if la.x != pd.x || la.neg.iter().any(|x| *x) || e != pd.x.is_empty() || cn != pd.n() { ctx.violation("C18/load", &format!("Link::load({name}) is not the diagram stored for {name}"), wit.clone()); return } }
+                None => { if yui_link::Link::is_valid_name(name) { ctx.violation("C18/load", &format!("Link::load({name}) failed for a table name that is_valid_name accepts"), wit.clone()); return } }
+            }
+            if b.x != pd.x || b.neg.iter().any(|x| *x) || empty != pd.x.is_empty() { ctx.violation("C18/from-pd-code", "Link::from_pd_code does not hold the given code", wit.clone()); return }
+            if es != pd.edges() { ctx.violation("C18/edges", "Link::edges differs from the labels of the code", wit.clone()); return }
+            if st != sg { ctx.violation("C18/ori-pres-state", "ori_pres_state is not (0 for a positive, 1 for a negative crossing)", wit); return }
+        }
+        Err(p) => { ctx.violation("C18/constructor-panic", &format!("load / from_pd_code / accessors panicked: {}", p.brief()), json!({"name": name})); return }
+    }
     if check_diagram(ctx, rng, &pd, &format!("table {name}"), "table", multi) { invariance(ctx, rng, &pd, name) }
 }
 
